@@ -97,6 +97,25 @@ TIERS = {
 _EMPTY: dict = {}
 
 
+class _RealCallError(Exception):
+    """The code under test raised: reported as a violation of the property, not as a harness error."""
+
+
+def _real(fn, *args, **kwargs):
+    try:
+        return fn(*args, **kwargs)
+    except Exception as exc:  # noqa: BLE001
+        raise _RealCallError(f"{type(exc).__name__}: {exc} (in {getattr(fn, '__qualname__', type(fn).__name__)})") from exc
+
+
+def _f(val):
+    """float(val) or None if the value is not a scalar number."""
+    try:
+        return float(val)
+    except (TypeError, ValueError):
+        return None
+
+
 # ------------------------------------------------------------------------------------------------ items
 def _configs():
     out = [(STANDARD, a, None) for a in THRESHOLDS]
@@ -155,12 +174,12 @@ def _make_real(kind, alpha, param, via_config):
             cfg = SlidingNISConfig(threshold=alpha, window_size=param)
         else:
             cfg = FadingMemoryNISConfig(threshold=alpha, delta=param)
-        return maneuverDetectionFactory(cfg)
+        return _real(maneuverDetectionFactory, cfg)
     if kind == STANDARD:
-        return StandardNis(alpha)
+        return _real(StandardNis, alpha)
     if kind == SLIDING:
-        return SlidingNis(alpha, window_size=param)
-    return FadingMemoryNis(alpha, delta=param)
+        return _real(SlidingNis, alpha, window_size=param)
+    return _real(FadingMemoryNis, alpha, delta=param)
 
 
 def _make_ref(kind, alpha, param):
@@ -223,7 +242,7 @@ class _Filters:
         flt.innov_cvr = cov
         flt.maneuver_detected = None  # sentinels: a stale value cannot pass for a fresh one
         flt.maneuver_metric = None
-        flt.checkManeuverDetection()
+        _real(flt.checkManeuverDetection)
         got = flt.maneuver_detected
         is_bool = isinstance(got, (bool, np.bool_))
         res.case(
@@ -249,7 +268,7 @@ class _Filters:
             item=item,
         )
         if got:
-            okm = flt.maneuver_metric is not None and float(flt.maneuver_metric) == float(det.metric)
+            okm = _f(flt.maneuver_metric) is not None and _f(flt.maneuver_metric) == _f(det.metric)
             res.case(
                 "filter/metric",
                 mk(variant=name) if not okm else _EMPTY,
@@ -364,22 +383,22 @@ def _judge(res, ctx, sub, path, got, det_metric, metric_r, dof_r, bound_r, step_
         ok,
         nontrivial=nontriv,
         signature=f"C17/{ctx.kind}/decision/{'missed_detection' if expected else 'false_detection'}",
-        observed={"detected": got, "metric": float(det_metric) if det_metric is not None else None},
+        observed={"detected": got, "metric": _f(det_metric)},
         expected={"detected": expected, "metric": metric_r, "bound": bound_r, "dof": dof_r},
         outcome=outcome,
         item=ctx.item,
     )
-    okm = det_metric is not None and abs(float(det_metric) - metric_r) <= MTOL * max(abs(metric_r), 1e-300)
+    okm = _f(det_metric) is not None and abs(_f(det_metric) - metric_r) <= MTOL * max(abs(metric_r), 1e-300)
     res.case(
         f"{sub}/metric",
         step_case(metric=metric_r) if not okm else _EMPTY,
         okm,
         signature=f"C17/{ctx.kind}/metric",
-        observed=float(det_metric) if det_metric is not None else None,
+        observed=_f(det_metric),
         expected=metric_r,
         item=ctx.item,
     )
-    res.observe(got, float(det_metric) if det_metric is not None else None)
+    res.observe(got, _f(det_metric))
 
 
 def _monotone(res, ctx, path, det_before, rdet_before, sym, vec, got, metric_got, step_case):
@@ -387,10 +406,11 @@ def _monotone(res, ctx, path, det_before, rdet_before, sym, vec, got, metric_got
     for k in (1.5, 10.0):
         det4 = copy.deepcopy(det_before)
         svec, snis = sym.scaled_input(vec, k)
-        r4 = bool(det4(svec, sym.mat))
+        r4 = bool(_real(det4, svec, sym.mat))
         ctx.transitions += 1
-        m4 = float(det4.metric)
-        ok = ((not got) or r4) and m4 >= float(metric_got)
+        m4 = _f(det4.metric)
+        m2 = _f(metric_got)
+        ok = ((not got) or r4) and m4 is not None and m2 is not None and m4 >= m2
         res.case(
             "monotone/decision",
             step_case(scale=k) if (not ok or len(res.samples) < 2) else _EMPTY,
@@ -398,12 +418,12 @@ def _monotone(res, ctx, path, det_before, rdet_before, sym, vec, got, metric_got
             nontrivial=got,
             signature=f"C17/{ctx.kind}/monotone",
             observed={"detected_scaled": r4, "metric_scaled": m4},
-            expected={"detected": got, "metric": float(metric_got)},
+            expected={"detected": got, "metric": m2},
             outcome=f"{int(got)}->{int(r4)}",
             item=ctx.item,
         )
         m_ref = rdet_before.metric_after(snis)
-        okm = abs(m4 - m_ref) <= MTOL * max(abs(m_ref), 1e-300)
+        okm = m4 is not None and abs(m4 - m_ref) <= MTOL * max(abs(m_ref), 1e-300)
         res.case(
             "monotone/metric",
             step_case(scale=k) if not okm else _EMPTY,
@@ -441,7 +461,7 @@ def _run_tail(res, ctx, det_node, rdet_node, path_node, tail_sym, length, record
 
         variant = (n + tail_sym.idx) % 7
         if variant == 6:
-            got = bool(det(vec, tail_sym.mat))  # direct call, as a user of the detector class would
+            got = bool(_real(det, vec, tail_sym.mat))  # direct call, as a user of the detector class would
         else:
             got = ctx.filters.call(res, variant, det, vec, tail_sym.mat, step_case, ctx.item)
         ctx.transitions += 1
@@ -449,7 +469,7 @@ def _run_tail(res, ctx, det_node, rdet_node, path_node, tail_sym, length, record
         after = _canon(det)
         ctx.states.add(after)
         if rec is not None:
-            rec.append((tail_sym, vec, got, float(det.metric), after))
+            rec.append((tail_sym, vec, got, _f(det.metric), after))
         # fixed point of the deterministic transition (same state, same input): every remaining step of this tail is this
         # same transition again and the reference statistic is a function of the same window -> nothing new to check
         fixed = rec is None and after == before and tail_sym.vec is not None
@@ -494,7 +514,7 @@ def _run_explore(res, item):
                 ctx.states.add(state2)
                 # the same transition by a direct call on another copy: same decision, same state
                 det3 = copy.deepcopy(det)
-                r3 = bool(det3(vec, sym.mat))
+                r3 = bool(_real(det3, vec, sym.mat))
                 ctx.transitions += 1
                 ok = r3 == got and _canon(det3) == state2
                 res.case(
@@ -507,7 +527,7 @@ def _run_explore(res, item):
                     item=ctx.item,
                 )
                 _monotone(res, ctx, path2, det, rdet, sym, vec, got, det2.metric, step_case)
-                record[path2.hist] = (vec, got, float(det2.metric), state2)
+                record[path2.hist] = (vec, got, _f(det2.metric), state2)
                 nxt.append((det2, rdet2, path2))
                 if depth <= ctx.d12:
                     length = 50 if depth <= ctx.d50 else 12
@@ -527,12 +547,12 @@ def _run_explore(res, item):
         for j in range(1, path.length + 1):
             vec, got, metric, state = record[path.hist[:j]]
             sym = ctx.syms[path.hist[j - 1]]
-            r = bool(fresh(vec, sym.mat))
+            r = bool(_real(fresh, vec, sym.mat))
             ctx.transitions += 1
             st = _canon(fresh)
             if ok and not (r == got and st == state):
                 ok, where, obs, exp = False, j, {"detected": r, "state": repr(st)}, {"detected": got, "state": repr(state)}
-        res.observe(float(fresh.metric))
+        res.observe(_f(fresh.metric))
         res.case(
             "differential/continued_vs_fresh",
             {**ctx.base_case(), "history": [ctx.syms[i].label for i in path.hist], "first_difference_at_step": where} if (not ok or len(res.samples) < 2) else _EMPTY,
@@ -549,7 +569,7 @@ def _run_explore(res, item):
         ok, where, obs, exp = True, None, None, None
         steps = [(ctx.syms[hidx[j - 1]],) + record[hidx[:j]] for j in range(1, len(hidx) + 1)] + rec
         for j, (sym, vec, got, metric, state) in enumerate(steps, start=1):
-            r = bool(fresh(vec, sym.mat))
+            r = bool(_real(fresh, vec, sym.mat))
             ctx.transitions += 1
             st = _canon(fresh)
             if ok and not (r == got and st == state):
@@ -583,11 +603,11 @@ def _run_stat(res, item):
                     u = ref.direction(dim, phase + 0.3 * k)
                     vec = [flip * scale * t * (1.0 + 0.25 * i) for i, t in enumerate(u)]
                     want = ref.quad_form(vec, lst)
-                    got = float(chiSquareQuadraticForm(np.array(vec), mat))
+                    got = _f(_real(chiSquareQuadraticForm, np.array(vec), mat))
                     res.case(
                         "stat/quadratic_form",
                         {"dim": dim, "cov": cov, "scale": scale, "flip": flip},
-                        abs(got - want) <= MTOL * max(abs(want), 1e-300),
+                        got is not None and abs(got - want) <= MTOL * max(abs(want), 1e-300),
                         nontrivial=cov == "S" and scale > 0,
                         signature="C17/stat/quadratic_form",
                         observed=got,
@@ -603,7 +623,7 @@ def _run_stat(res, item):
                 b = ref.upper_tail_bound(alpha, dof * runs) / runs
                 for lvl, fac in (("zero", 0.0), ("half", 0.5), ("below", 1 - EPS), ("above", 1 + EPS), ("x10", 10.0)):
                     metric = b * fac
-                    got = oneSidedChiSquareTest(metric, alpha, dof) if runs == 1 else oneSidedChiSquareTest(metric, alpha, dof, runs)
+                    got = _real(oneSidedChiSquareTest, metric, alpha, dof) if runs == 1 else _real(oneSidedChiSquareTest, metric, alpha, dof, runs)
                     want = metric < b
                     res.case(
                         "stat/one_sided_test",
@@ -661,23 +681,23 @@ def _run_tie(res, item):
         for label, xl, want in (("below", x - step, False), ("tie", x, True), ("above", x + step, True)):
             det = _make_real(kind, alpha, param, via_config=False)
             for dd, xx in prefix:
-                det(_tie_vec(dd, xx), np.eye(dd))
-            got = bool(det(_tie_vec(d, xl), np.eye(d)))
+                _real(det, _tie_vec(dd, xx), np.eye(dd))
+            got = bool(_real(det, _tie_vec(d, xl), np.eye(d)))
             rd2 = rd.copy()
             m_want, _, _ = rd2.step(xl * xl + 0.25 * (d - 1), d)
-            ok = got == want and float(det.metric) == m_want
+            ok = got == want and _f(det.metric) == m_want
             res.case(
                 "tie/decision",
                 {"kind": kind, "param": param, "alpha": alpha, "prefix": prefix, "dim": d, "x": xl, "at": label},
                 ok,
                 nontrivial=True,
                 signature=f"C17/{kind}/tie/{label}",
-                observed={"detected": got, "metric": float(det.metric)},
+                observed={"detected": got, "metric": _f(det.metric)},
                 expected={"detected": want, "metric": m_want, "bound": m},
                 outcome=f"{label}:{want}",
                 item=item,
             )
-            res.observe(got, float(det.metric))
+            res.observe(got, _f(det.metric))
     for kind, n in found.items():
         if n < 10:
             res.cap(f"only {n} exact metric==bound ties found for {kind}; the equality side of the threshold is weakly covered")
@@ -690,15 +710,16 @@ def _run_misc(res, item):
     phase = 0.37 * (seed % 1000)
     # defaults: window_size=4, delta=0.8 (docstrings)
     hist = [(2, 0.7), (3, 1.9), (1, 0.2), (2, 3.1), (8, 0.9), (2, 0.4), (3, 2.2)]
-    for name, det, rdet in (
-        ("SlidingNis default window", SlidingNis(0.05), _make_ref(SLIDING, 0.05, 4)),
-        ("FadingMemoryNis default delta", FadingMemoryNis(0.05), _make_ref(FADING, 0.05, 0.8)),
-        ("SlidingNis window 1", SlidingNis(0.05, 1), _make_ref(SLIDING, 0.05, 1)),
-        ("SlidingNis window 10", SlidingNis(0.05, 10), _make_ref(SLIDING, 0.05, 10)),
-        ("FadingMemoryNis delta 0.001", FadingMemoryNis(0.05, 0.001), _make_ref(FADING, 0.05, 0.001)),
-        ("FadingMemoryNis delta 0.999", FadingMemoryNis(0.05, 0.999), _make_ref(FADING, 0.05, 0.999)),
-        ("StandardNis", StandardNis(0.05), _make_ref(STANDARD, 0.05, None)),
+    for name, build, rdet in (
+        ("SlidingNis default window", lambda: SlidingNis(0.05), _make_ref(SLIDING, 0.05, 4)),
+        ("FadingMemoryNis default delta", lambda: FadingMemoryNis(0.05), _make_ref(FADING, 0.05, 0.8)),
+        ("SlidingNis window 1", lambda: SlidingNis(0.05, 1), _make_ref(SLIDING, 0.05, 1)),
+        ("SlidingNis window 10", lambda: SlidingNis(0.05, 10), _make_ref(SLIDING, 0.05, 10)),
+        ("FadingMemoryNis delta 0.001", lambda: FadingMemoryNis(0.05, 0.001), _make_ref(FADING, 0.05, 0.001)),
+        ("FadingMemoryNis delta 0.999", lambda: FadingMemoryNis(0.05, 0.999), _make_ref(FADING, 0.05, 0.999)),
+        ("StandardNis", lambda: StandardNis(0.05), _make_ref(STANDARD, 0.05, None)),
     ):
+        det = _real(build)
         for rep in range(3):
             for j, (dim, frac) in enumerate(hist):
                 lst = ref.spd_matrix(dim, phase + j)
@@ -708,20 +729,21 @@ def _run_misc(res, item):
                 s = math.sqrt(target / ref.quad_form_chol(u, low))
                 vec = [s * t for t in u]
                 metric_r, dof_r, bound_r = rdet.step(ref.quad_form_chol(vec, low), dim)
-                got = bool(det(np.array(vec), np.array(lst)))
+                got = bool(_real(det, np.array(vec), np.array(lst)))
                 either = abs(metric_r - bound_r) <= EITHER * bound_r
-                ok = (either or got == (metric_r >= bound_r)) and abs(float(det.metric) - metric_r) <= MTOL * max(metric_r, 1e-300)
+                dm = _f(det.metric)
+                ok = (either or got == (metric_r >= bound_r)) and dm is not None and abs(dm - metric_r) <= MTOL * max(metric_r, 1e-300)
                 res.case(
                     "misc/defaults_and_extremes",
                     {"detector": name, "step": rep * len(hist) + j + 1, "dim": dim},
                     ok,
                     nontrivial=True,
                     signature=f"C17/misc/{name.replace(' ', '_')}",
-                    observed={"detected": got, "metric": float(det.metric)},
+                    observed={"detected": got, "metric": dm},
                     expected={"detected": metric_r >= bound_r, "metric": metric_r, "bound": bound_r, "dof": dof_r},
                     item=item,
                 )
-                res.observe(got, float(det.metric))
+                res.observe(got, dm)
     # no detector configured: nothing is raised, nothing is touched
     for adaptive, iod in ((False, False), (True, False), (False, True)):
         flt = _make_filter(adaptive=adaptive, iod=iod)
@@ -729,7 +751,7 @@ def _run_misc(res, item):
             flt._flags = pre
             flt.innovation = np.array([1e3, 1e3])
             flt.innov_cvr = np.eye(2)
-            flt.checkManeuverDetection()
+            _real(flt.checkManeuverDetection)
             ok = flt.flags == pre and flt.maneuver_detected is False and flt.maneuver_metric is None
             res.case(
                 "misc/no_detector",
@@ -746,14 +768,26 @@ def run_item(item):
     res = fw.Result()
     item = tuple(item)
     kind = item[0]
-    if kind == "explore":
-        _run_explore(res, item)
-    elif kind == "stat":
-        _run_stat(res, item)
-    elif kind == "tie":
-        _run_tie(res, item)
-    elif kind == "misc":
-        _run_misc(res, item)
-    else:
-        raise ValueError(kind)
+    try:
+        if kind == "explore":
+            _run_explore(res, item)
+        elif kind == "stat":
+            _run_stat(res, item)
+        elif kind == "tie":
+            _run_tie(res, item)
+        elif kind == "misc":
+            _run_misc(res, item)
+        else:
+            raise ValueError(kind)
+    except _RealCallError as exc:
+        # the implementation raised on an input of the announced lattice: the rest of this work item is abandoned
+        res.case(
+            "exception",
+            {"item": list(item), "kind": item[1] if kind == "explore" else kind},
+            False,
+            signature=f"C17/{item[1] if kind == 'explore' else kind}/exception",
+            observed=str(exc),
+            expected="no exception for positive definite covariance, window 1..10, delta in (0,1), threshold in (0,1)",
+            item=item,
+        )
     return res
